@@ -125,6 +125,9 @@ func drawErrCase(d *caseDrawer, r *rng.R) *PCase {
 		pc.CE = g.Desugar(true)
 		pc.EngE = cfg.New(toCfg(pc.CE))
 		pc.Opt = gram.HarnessOpt{Bounds: r.Chance(1, 5)}
+		if r.Chance(1, 4) {
+			pc.Split = 1 + uint64(r.Intn(1<<30))
+		}
 		pc.prepare()
 		key := sha256.Sum256([]byte(pc.Lox))
 		d.mu.Lock()
